@@ -38,6 +38,7 @@ ASSUMPTIONS = [
     "O13.1 (exact equality) applies to same-CRS nearest-neighbour runs; on inexact grids destination centres within 1e-6 px of a source pixel edge are left out (counted)",
     "O13.2/O13.5 use a safety margin of 3 source + 3 destination pixels around the projected footprint, computed with affine/pyproj/numpy",
     "source pixel values never equal the fill value",
+    "cross-CRS rasters are local (at most ~150 km across): on continental extents the per-chunk source-tile lookup approximates curved outlines too coarsely (C12's dependency completeness, not claimed) - see DESIGN 7.3",
 ]
 
 CRS_POOL = {
